@@ -169,17 +169,17 @@ inductive FExpr where
   | xreg (no : Nat)
   | var (name : String)
   | bin (op : FOp) (a b : FExpr)
-deriving Repr, Inhabited
+deriving Repr, Inhabited, DecidableEq
 
 inductive FDest where
   | reg (view : View) (no : Nat)
   | xreg (no : Nat)
   | var (name : String)
-deriving Repr, Inhabited
+deriving Repr, Inhabited, DecidableEq
 
 inductive FStmt where
   | set (d : FDest) (e : FExpr)
-deriving Repr, Inhabited
+deriving Repr, Inhabited, DecidableEq
 
 /-- a declared variable; `fmt = none` is the fixed-point format `x` -/
 structure FVarDecl where
